@@ -16,11 +16,30 @@ THEOREMS = ["C07_step_valid", "C07_checker_sound", "C07_subset", "C07_exact", "C
 NAMES = ["a", "b", "f1", "f2", "label", "x AND y", "u", "v9", "é", "", "0", "1", "f AND_REL g"]
 
 
+def split_family(rng):
+    """Distinct tuples whose constituents concatenate to the same text under common joiners
+    (interaction features are themselves named "a AND b", so such names are ordinary pipeline input)."""
+    sep = rng.choice([" AND ", ",", "', '", " ", "-", ""])
+    toks = [rng.choice(["a", "b", "c", "x", "label", "f1", "0"]) for _ in range(rng.randint(3, 5))]
+    out = []
+    for i in range(1, len(toks)):
+        t = (sep.join(toks[:i]), sep.join(toks[i:]))
+        if t not in out:
+            out.append(t)
+    return out
+
+
 def gen_case(rng, stable):
     nk = rng.randint(1, 25)
     arity = rng.randint(2, 4)
     pool = []
     seen = set()
+    if rng.random() < 0.25:
+        arity = 2
+        for t in split_family(rng):
+            if t not in seen and len(pool) < nk:
+                seen.add(t)
+                pool.append(t)
     while len(pool) < nk:
         t = tuple(rng.choice(NAMES) + str(rng.randint(0, 40)) for _ in range(arity))
         if t not in seen:
